@@ -963,7 +963,7 @@ def replay_unicode_document(index, ob, seed, saved=None):
     import polars as pl
     rtf = index.real_module("rtflite")
     texts = ["Café München", "α-blocker ≥ 5 mg", "東京 \U0001F600", "naïve ± 0.5", "plain ascii"]
-    positions = ["title", "subline", "header", "cell", "page_by_heading", "subline_by_heading", "footnote_table", "footnote_par", "source", "page_header", "page_footer"]
+    positions = ["title", "subline", "header", "cell", "page_by_heading", "subline_by_heading", "footnote_table", "footnote_par", "footnote_lines", "source", "page_header", "page_footer"]
     for pos in positions:
         for t in texts:
             case = {"position": pos, "text": t}
@@ -987,6 +987,8 @@ def replay_unicode_document(index, ob, seed, saved=None):
                 kw["rtf_footnote"] = rtf.RTFFootnote(text=t, as_table=True)
             elif pos == "footnote_par":
                 kw["rtf_footnote"] = rtf.RTFFootnote(text=t, as_table=False)
+            elif pos == "footnote_lines":
+                kw["rtf_footnote"] = rtf.RTFFootnote(text=["first line", t, "last line"])
             elif pos == "source":
                 kw["rtf_source"] = rtf.RTFSource(text=t)
             elif pos == "page_header":
@@ -1001,6 +1003,8 @@ def replay_unicode_document(index, ob, seed, saved=None):
             if non_ascii:
                 return _r(True, input=case, observed=f"raw non-ASCII character U+{ord(non_ascii[0]):04X} in the RTF stream")
             plain = _rtf_plain_text(s)
+            if pos == "footnote_lines" and not ("first line" in plain and "last line" in plain and t in plain[plain.index("first line"):plain.index("last line")]):
+                return _r(True, input=case, observed="the three footnote lines are not read back in order", expected=["first line", t, "last line"])
             if t not in plain:
                 near = [ln for ln in plain.split("\n") if ln.strip() and (t[:3] in ln or "\\u" in ln)][:2]
                 return _r(True, input=case, observed=f"text not read back intact; reader shows {near}", expected=t)
